@@ -183,6 +183,12 @@ def _load_check(modname):
     return importlib.import_module(modname)
 
 
+def _scale(mod, tier):
+    """per-property budget multiplier (quick, thorough) applied to every generated sub-property: SCALE = (q, t) in the check module"""
+    sc = getattr(mod, "SCALE", (1, 1))
+    return sc[TIERS.index(tier)]
+
+
 def run_unit(args):
     modname, subname, tier, seed, shard, nshards, n_override = args
     t0 = time.time()
@@ -218,7 +224,7 @@ def run_unit(args):
         if sub.strategy is not None and res["violation"] is None:
             import hypothesis
             from hypothesis import HealthCheck, Phase, given, settings
-            n = n_override or sub.n[tier]
+            n = n_override or int(sub.n[tier] * _scale(mod, tier))
             n = max(1, int(math.ceil(n / float(nshards))))
 
             def wrapped(case):
@@ -272,7 +278,7 @@ def run_unit(args):
             import hypothesis
             from hypothesis import HealthCheck, Phase, settings
             from hypothesis.stateful import run_state_machine_as_test
-            n = n_override or sub.n[tier]
+            n = n_override or int(sub.n[tier] * _scale(mod, tier))
             n = max(1, int(math.ceil(n / float(nshards))))
             box = {"failed": None}
 
